@@ -128,6 +128,10 @@ fn rev_oracle(c: &Case) -> Verdict {
     // constructors
     let built = if s == S_ET { lib!(Epoch::from_et_duration(mk(c.off))) } else { lib!(Epoch::from_tdb_duration(mk(c.off))) };
     ensure!(built.time_scale == SCALES[s] && count(built.duration) == c.off, "from_et/tdb_duration wrong");
+    // float-second constructors: x seconds after J2000 of that scale, truncated to ns (C18's semantics)
+    let x = ns_to_s(c.off);
+    let fe = if s == S_ET { lib!(Epoch::from_et_seconds(x)) } else { lib!(Epoch::from_tdb_seconds(x)) };
+    ensure!(fe.time_scale == SCALES[s] && count(fe.duration) == f64_trunc_i128(x * 1e9), "from_et/tdb_seconds({:e}) has count {} in {:?}, want {}", x, count(fe.duration), fe.time_scale, f64_trunc_i128(x * 1e9));
     Verdict::Pass("reverse", true)
 }
 
